@@ -14,6 +14,12 @@ CHECKS = {
             'trusts vlib/aeq.py as the definition of abstract equality; modules the library cannot compile and '
             'values the library itself rejects are counted, not judged',
             'property-based testing (Hypothesis), round-trip oracle'),
+    'C02': ('hypothesis', 'exploration',
+            'generated modules x values x {jer,xer} x indent {None,0,1,4} x numeric_enums: output parses as strict '
+            'JSON / well-formed XML (expat), decodes to the same abstract value (REAL: same IEEE double), the '
+            'parsed document is the same at every indent, decoded value re-encodes',
+            'trusts Python json and expat as the independent readers; XER strings restricted to XML 1.0 Char',
+            'property-based testing (Hypothesis), round-trip + metamorphic (indent) oracle, independent parsers'),
     'C15': ('hypothesis', 'exploration',
             'generated modules x values, ber/der: decode_with_length(m+tail) == (decode(m), len(m)); '
             'decode_length on every prefix of the header region == len(m) iff the prefix holds the complete '
